@@ -16,7 +16,8 @@
 //! Payload grammar (one line):
 //!
 //! ```text
-//! payload := cap (";" op)*            cap = channel capacity, 0 = crate default
+//! payload := cap [":" T] (";" op)*    cap = channel capacity, 0 = crate default;
+//!                                     T = Config::write_timeout in ms (absent = crate default)
 //! op      := "reg" id ver             register a new connection (index = #regs so far) ver = 1|2
 //!          | "close" c                client side of connection c ends its stream
 //!          | "bad" c                  client sends a frame the decoder rejects
@@ -25,6 +26,8 @@
 //!                                     kind = s (single) | b (batch); ecn = wire byte; seg = u16
 //!          | "ping" c hex8 | "pong" c hex8
 //!          | "stall" c | "unstall" c  client stops / resumes draining its socket
+//!          | "slow" c ms              client of c takes `ms` of (virtual) time to accept each frame
+//!                                     written to it (0 = back to immediate)
 //!          | "shutdown"               Clients::shutdown()
 //!          | "shutreg" id ver         Clients::shutdown() racing with a registration
 //! tok     := hex (<= 32 bytes) | "p" len "." seed     datagram contents
@@ -117,6 +120,7 @@ pub enum Op {
     Pong { c: usize, data: [u8; 8] },
     Stall { c: usize },
     Unstall { c: usize },
+    Slow { c: usize, ms: u64 },
     Shutdown,
     ShutReg { id: usize, v1: bool },
 }
@@ -124,6 +128,8 @@ pub enum Op {
 #[derive(Clone, Debug)]
 pub struct Script {
     pub cap: usize,
+    /// `Config::write_timeout` in ms, `None` = the crate's default
+    pub write_timeout_ms: Option<u64>,
     pub ops: Vec<Op>,
 }
 
@@ -150,6 +156,7 @@ impl Op {
             Op::Pong { c, data } => format!("pong {c} {}", hex(data)),
             Op::Stall { c } => format!("stall {c}"),
             Op::Unstall { c } => format!("unstall {c}"),
+            Op::Slow { c, ms } => format!("slow {c} {ms}"),
             Op::Shutdown => "shutdown".into(),
             Op::ShutReg { id, v1 } => format!("shutreg {id} {}", if *v1 { 1 } else { 2 }),
         }
@@ -193,6 +200,7 @@ impl Op {
             "pong" => Op::Pong { c: n(1)?, data: arr8(t.get(2)?)? },
             "stall" => Op::Stall { c: n(1)? },
             "unstall" => Op::Unstall { c: n(1)? },
+            "slow" => Op::Slow { c: n(1)?, ms: t.get(2)?.parse().ok()? },
             "shutdown" => Op::Shutdown,
             "shutreg" => Op::ShutReg { id: n(1)?, v1: ver(2)? },
             _ => return None,
@@ -203,6 +211,9 @@ impl Op {
 impl Script {
     pub fn render(&self) -> String {
         let mut s = self.cap.to_string();
+        if let Some(t) = self.write_timeout_ms {
+            s.push_str(&format!(":{t}"));
+        }
         for op in &self.ops {
             s.push(';');
             s.push_str(&op.render());
@@ -213,7 +224,11 @@ impl Script {
     /// Parses a payload with a property-specific parser for extra op kinds.
     pub fn parse_with(payload: &str, extra: &dyn Fn(&str) -> Option<Op>) -> Option<Script> {
         let mut it = payload.split(';');
-        let cap: usize = it.next()?.trim().parse().ok()?;
+        let hd = it.next()?.trim();
+        let (cap, write_timeout_ms) = match hd.split_once(':') {
+            Some((c, t)) => (c.parse::<usize>().ok()?, Some(t.parse::<u64>().ok()?)),
+            None => (hd.parse::<usize>().ok()?, None),
+        };
         let mut ops = Vec::new();
         for o in it {
             let o = o.trim();
@@ -222,7 +237,7 @@ impl Script {
             }
             ops.push(Op::parse(o).or_else(|| extra(o))?);
         }
-        Some(Script { cap, ops })
+        Some(Script { cap, write_timeout_ms, ops })
     }
 
     pub fn parse(payload: &str) -> Option<Script> {
@@ -302,6 +317,13 @@ struct Shared {
     in_waker: Option<Waker>,
     gate_closed: bool,
     flush_waker: Option<Waker>,
+    /// slow client: time it takes to accept one frame (0 = immediately)
+    slow_ms: u64,
+    /// the frame written but not yet accepted by the slow client, and when it was written
+    in_pipe: Option<tokio::time::Instant>,
+    /// the write of `in_pipe` ran into the actor's write timeout
+    expired: bool,
+    ready_waker: Option<Waker>,
     out: Vec<Bytes>,
     dropped: bool,
 }
@@ -333,19 +355,29 @@ impl Stream for MemStream {
 
 impl Sink<Bytes> for MemStream {
     type Error = StreamError;
-    fn poll_ready(self: Pin<&mut Self>, _cx: &mut Context<'_>) -> Poll<Result<(), StreamError>> {
+    fn poll_ready(self: Pin<&mut Self>, cx: &mut Context<'_>) -> Poll<Result<(), StreamError>> {
         self.activity.fetch_add(1, Ordering::SeqCst);
+        let mut sh = self.sh.lock().unwrap();
+        if sh.in_pipe.is_some() {
+            // the pipe to a slow client holds one frame
+            sh.ready_waker = Some(cx.waker().clone());
+            return Poll::Pending;
+        }
         Poll::Ready(Ok(()))
     }
     fn start_send(self: Pin<&mut Self>, item: Bytes) -> Result<(), StreamError> {
         self.activity.fetch_add(1, Ordering::SeqCst);
-        self.sh.lock().unwrap().out.push(item);
+        let mut sh = self.sh.lock().unwrap();
+        sh.out.push(item);
+        if sh.slow_ms > 0 {
+            sh.in_pipe = Some(tokio::time::Instant::now());
+        }
         Ok(())
     }
     fn poll_flush(self: Pin<&mut Self>, cx: &mut Context<'_>) -> Poll<Result<(), StreamError>> {
         self.activity.fetch_add(1, Ordering::SeqCst);
         let mut sh = self.sh.lock().unwrap();
-        if sh.gate_closed {
+        if sh.gate_closed || sh.in_pipe.is_some() {
             sh.flush_waker = Some(cx.waker().clone());
             Poll::Pending
         } else {
@@ -393,6 +425,8 @@ pub struct Step {
 #[derive(Clone, Debug, Default)]
 pub struct Trace {
     pub steps: Vec<Step>,
+    /// the effective `Config::write_timeout` in ms
+    pub wt_ms: u64,
     /// owner id of each connection index
     pub owner: Vec<usize>,
     pub v1: Vec<bool>,
@@ -511,6 +545,9 @@ struct World {
     activity: Arc<AtomicU64>,
     conns: Vec<ConnH>,
     cap: usize,
+    write_timeout_ms: Option<u64>,
+    /// the effective `Config::write_timeout` (ms)
+    wt_ms: u64,
 }
 
 const MAX_YIELDS: usize = 20_000;
@@ -527,6 +564,10 @@ impl World {
         if self.cap != 0 {
             cfg.channel_capacity = self.cap;
         }
+        if let Some(t) = self.write_timeout_ms {
+            cfg.write_timeout = std::time::Duration::from_millis(t);
+        }
+        self.wt_ms = cfg.write_timeout.as_millis() as u64;
         self.clients.register(cfg, self.metrics.clone());
         self.conns.push(ConnH { sh, cid, id, out_seen: 0, ended_seen: false });
         self.conns.len() - 1
@@ -560,6 +601,49 @@ impl World {
             } else {
                 quiet = 0;
                 last = now;
+            }
+        }
+        false
+    }
+
+    /// Quiescence in virtual time: settle, then let the earliest slow client accept its frame
+    /// (or the actor's write timeout expire, whichever is first), and so on.
+    async fn settle_timed(&self) -> bool {
+        for _ in 0..100_000 {
+            if !self.settle().await {
+                return false;
+            }
+            let mut best: Option<(tokio::time::Instant, usize, bool)> = None;
+            for (i, h) in self.conns.iter().enumerate() {
+                let sh = h.sh.lock().unwrap();
+                if sh.dropped || sh.expired {
+                    continue;
+                }
+                if let Some(t0) = sh.in_pipe {
+                    let (dt, accept) = if sh.slow_ms <= self.wt_ms { (sh.slow_ms, true) } else { (self.wt_ms, false) };
+                    let at = t0 + std::time::Duration::from_millis(dt);
+                    if best.is_none_or(|(b, _, _)| at < b) {
+                        best = Some((at, i, accept));
+                    }
+                }
+            }
+            let Some((at, i, accept)) = best else { return true };
+            let now = tokio::time::Instant::now();
+            if at > now {
+                tokio::time::advance(at - now).await;
+            }
+            let mut sh = self.conns[i].sh.lock().unwrap();
+            if accept {
+                sh.in_pipe = None;
+                if let Some(w) = sh.flush_waker.take() {
+                    w.wake();
+                }
+                if let Some(w) = sh.ready_waker.take() {
+                    w.wake();
+                }
+            } else {
+                // the actor's write timeout fires on its own
+                sh.expired = true;
             }
         }
         false
@@ -601,6 +685,8 @@ async fn run_async(script: &Script) -> Trace {
         activity: Arc::new(AtomicU64::new(0)),
         conns: Vec::new(),
         cap: script.cap,
+        write_timeout_ms: script.write_timeout_ms,
+        wt_ms: 0,
     };
     let mut tr = Trace::default();
     for op in &script.ops {
@@ -683,6 +769,11 @@ async fn run_async(script: &Script) -> Trace {
                     }
                 }
             }
+            Op::Slow { c, ms } => {
+                if let Some(h) = w.conns.get(*c) {
+                    h.sh.lock().unwrap().slow_ms = *ms;
+                }
+            }
             Op::Shutdown | Op::ShutReg { .. } => {}
         }
         let mut timeout = false;
@@ -699,7 +790,7 @@ async fn run_async(script: &Script) -> Trace {
                     tr.v1.push(*v1);
                     res = format!("c{c}");
                 }
-                timeout |= !w.settle().await;
+                timeout |= !w.settle_timed().await;
                 if first.is_pending() {
                     // stalled actors never finish: do not wait for them
                     let _ = futures_util::poll!(fut.as_mut());
@@ -707,7 +798,7 @@ async fn run_async(script: &Script) -> Trace {
                 // keep the future alive: dropping it would abort stalled actors' tasks
                 std::mem::forget(fut);
             }
-            _ => timeout |= !w.settle().await,
+            _ => timeout |= !w.settle_timed().await,
         }
         // collect
         let mut frames = BTreeMap::new();
@@ -728,6 +819,7 @@ async fn run_async(script: &Script) -> Trace {
         }
         let snap = w.snapshot();
         tr.steps.push(Step { op: op.clone(), res, frames, raw, ended, snap, timeout });
+        tr.wt_ms = w.wt_ms;
     }
     tr
 }
